@@ -111,6 +111,55 @@ fn build_nodes(ty: &Ty, nodes: &mut Vec<Option<SchemaNode>>, names: &mut HashMap
 	idx
 }
 
+/// Same graph, but every primitive leaf kind exists once and is shared by all its users (a DAG, as the derive
+/// macro or a hand-written builder would produce)
+fn nodes_of_shared(ty: &Ty) -> Vec<SchemaNode> {
+	let tree = nodes_of(ty);
+	// map each primitive (no logical type) leaf to the first node of that kind
+	fn prim_kind(n: &SchemaNode) -> Option<u8> {
+		if n.logical_type.is_some() {
+			return None;
+		}
+		Some(match n.type_ {
+			RegularType::Null => 0,
+			RegularType::Boolean => 1,
+			RegularType::Int => 2,
+			RegularType::Long => 3,
+			RegularType::Float => 4,
+			RegularType::Double => 5,
+			RegularType::Bytes => 6,
+			RegularType::String => 7,
+			_ => return None,
+		})
+	}
+	let mut first: [Option<usize>; 8] = [None; 8];
+	let mut redirect: Vec<usize> = (0..tree.len()).collect();
+	for (i, n) in tree.iter().enumerate() {
+		if i == 0 {
+			continue;
+		}
+		if let Some(k) = prim_kind(n) {
+			match first[k as usize] {
+				None => first[k as usize] = Some(i),
+				Some(j) => redirect[i] = j,
+			}
+		}
+	}
+	let re = |k: SchemaKey| SchemaKey::from_idx(redirect[k.idx()]);
+	tree.into_iter()
+		.map(|mut n| {
+			match &mut n.type_ {
+				RegularType::Array(a) => a.items = re(a.items),
+				RegularType::Map(m) => m.values = re(m.values),
+				RegularType::Union(u) => u.variants.iter_mut().for_each(|v| *v = re(*v)),
+				RegularType::Record(r) => r.fields.iter_mut().for_each(|f| f.type_ = re(f.type_)),
+				_ => {}
+			}
+			n
+		})
+		.collect()
+}
+
 fn nodes_of(ty: &Ty) -> Vec<SchemaNode> {
 	let mut nodes = vec![];
 	let mut names = HashMap::new();
@@ -288,7 +337,12 @@ fn pick_codec(rng: &mut Rng) -> (Compression, &'static str) {
 fn t_build_freeze_use(rng: &mut Rng, stats: &mut Stats) {
 	let ty = gen_small_schema(rng);
 	let env = Env::build(&ty);
-	let mut nodes = nodes_of(&ty);
+	let mut nodes = if rng.bool() {
+		stats.op("build-graph:shared-leaves");
+		nodes_of_shared(&ty)
+	} else {
+		nodes_of(&ty)
+	};
 	stats.op("build-graph");
 	// unreachable but valid extra nodes (shared by nobody)
 	for _ in 0..rng.usize(3) {
@@ -331,6 +385,17 @@ fn t_build_freeze_use(rng: &mut Rng, stats: &mut Stats) {
 			mismatch!("parsed(json(graph)) has another fingerprint");
 		}
 		let _ = round_trip(&parsed, &env, &ty, &vals, rng, "parsed-regenerated");
+		// a single-object message written under the built graph must be accepted under its parsed twin
+		{
+			let mut config = SerializerConfig::new(holder.get());
+			config.allow_slow_sequence_to_bytes();
+			let ctx = PresCtx::new(&env, PresCfg::plain(), None);
+			let msg = serde_avro_fast::to_single_object_vec(&Presented::new(&vals[0], &ty, &ctx), &mut config).unwrap_or_else(|e| mismatch!("to_single_object: {e}"));
+			if serde_avro_fast::from_single_object_slice::<serde::de::IgnoredAny>(&msg, &parsed).is_err() {
+				mismatch!("single-object message of a built schema rejected by the schema parsed from its own JSON");
+			}
+			stats.op("single-object:built-vs-parsed");
+		}
 		if rng.bool() {
 			drop(holder);
 			let _ = round_trip(&parsed, &env, &ty, &vals, rng, "parsed-after-original-dropped");
